@@ -67,6 +67,10 @@ fn serialize_object(
     bytes.push(markers::OBJECT_MARKER);
 
     for (name, value) in properties {
+        if name.len() == 0 {
+            return Err(Amf0SerializationError::EmptyObjectPropertyName);
+        }
+
         if name.len() > (u16::max_value() as usize) {
             return Err(Amf0SerializationError::NormalStringTooLong);
         }
